@@ -195,7 +195,11 @@ def run(sh):
     items = [it for it in corpus.items() if not it["ignored"]]
     mine = [it for i, it in enumerate(items) if i % sh.nshards == sh.shard]
     batch = []
+    rng.shuffle(mine)
     for it in mine:
+        if sh.past(0.5):
+            sh.count("corpus_items_skipped_time")
+            continue
         if "random(" in it["input"] or "unique-id" in it["input"]:
             continue
         batch.append((it["input"], it["spec"].get("syntax") or "scss", "corpus"))
